@@ -453,7 +453,7 @@ def run(chk, replay=None):
     from lcapy.inverse_laplace import inverse_laplace_transformer as ILTr
     ssym, tsym = ls.sympy, lt.sympy
 
-    n_funcs = 45 if quick else 500
+    n_funcs = 45 if quick else 380
     n_opts = 4 if quick else 10
     gen = Gen(rng)
     OPTS = all_option_sets()
@@ -888,7 +888,7 @@ def run(chk, replay=None):
         import signal
         ra = S.Rational(a.numerator, a.denominator)
         old = signal.signal(signal.SIGALRM, _alarm)
-        signal.alarm(12 if quick else 40)
+        signal.alarm(12 if quick else 20)
         try:
             e = r.replace(vfun, lambda x: x ** k * S.exp(-ra * x) / S.factorial(k))
             e = e.doit()
@@ -932,7 +932,8 @@ def run(chk, replay=None):
                 up = ig.limits[0][2]
                 uppers.add('inf' if up == S.oo else ('t' if up == tsym else 'other'))
             chk.count('undef-route', '%s:upper=%s' % (route, '/'.join(sorted(uppers)) or 'none'))
-            for k in ((3,) if zic else (0, 1)):
+            # zero_initial_conditions=True is the claim v(0) = ... = v^(n-1)(0) = 0: use a v(t) that satisfies it (deriv_entry_zic)
+            for k in ((max(3, n, len(B) - 1),) if zic else (0, 1)):
                 a = Fraction(rng.randint(1, 4), rng.choice([1, 2]))
                 gitem = 'ep 1 %d %s 0' % (k, fstr(-a))
                 ckey = ('undef', etxt, tuple(sorted((x, str(y)) for x, y in kw.items())), k, fstr(a))
@@ -1026,7 +1027,7 @@ def run(chk, replay=None):
             c = Fraction(rng.randint(1, 5))
             undef_case('deriv', '%s*s**%d' % (c, n), [zero] * n + [(c, Fraction(0))], [one], n, c)
         undef_case('integ', '3/s', [(Fraction(3), Fraction(0))], [zero, one], 0, Fraction(3))
-        kinds = ['real', 'repeated', 'origin-rep', 'real2'] if quick else ['real', 'repeated', 'origin-rep', 'real2', 'complex', 'mixed', 'origin'] * 3
+        kinds = ['real', 'repeated', 'origin-rep', 'real2'] if quick else ['real', 'repeated', 'origin-rep', 'real2', 'complex', 'mixed', 'origin'] * 2
         for kd in kinds:
             kind, poles = gen.pole_set()
             guard = 0
@@ -1086,7 +1087,7 @@ def run(chk, replay=None):
     # undamped, pole at the origin -> the fall-back to the partial-fraction route), crossed with causal / damping / delay
     DS_OPTS = [{'damped_sin': True}, {'damped_sin': True, 'causal': True}]
     DS_DEN = ['undamped', 'overdamped', 'critical', 'origin', 'unstable-complex', 'underdamped']
-    n_second = 0 if replay else (len(gen.SECOND_ORDER_NUM) + len(DS_DEN) if quick else 120)
+    n_second = 0 if replay else (len(gen.SECOND_ORDER_NUM) + len(DS_DEN) if quick else 80)
     for i in range(n_second):
         num = gen.SECOND_ORDER_NUM[i % len(gen.SECOND_ORDER_NUM)]
         den = 'underdamped' if i < len(gen.SECOND_ORDER_NUM) else DS_DEN[i % len(DS_DEN)]
@@ -1096,7 +1097,7 @@ def run(chk, replay=None):
         one_input([tm], 1000 + i, option_sets=DS_OPTS + [extra, {}])
     # ---- directed stream 2: improper rational functions B = Q*A + M with a chosen quotient (dense, with interior zero
     # coefficients, with trailing zeros), i.e. every pattern of Dirac-delta derivatives the polynomial part can produce
-    n_improper = 0 if replay else (len(gen.QUOTIENT_SHAPES) if quick else 80)
+    n_improper = 0 if replay else (len(gen.QUOTIENT_SHAPES) if quick else 56)
     for i in range(n_improper):
         tm = gen.improper(shape=gen.QUOTIENT_SHAPES[i % len(gen.QUOTIENT_SHAPES)])
         chk.count('improper-quotient', tm['kind'].split(':')[1])
